@@ -165,6 +165,24 @@ Section Maps.
   Qed.
 End Maps.
 
+(** ** probability 1: a variant switches to another option, an optional flips its presence *)
+Lemma p1_variant ms os i p c c' n x n' y :
+  mut_check fone ms (SVariant os i) p c (VVariant n x) (VVariant n' y) = Some c' -> n' <> n.
+Proof.
+  cbn [mut_check]. rewrite p_valid_one. cbn [negb].
+  intros H Heq. subst n'. revert H. induction os as [|[k cs] os IH]; [discriminate|].
+  destruct (String.eqb n k); [|exact IH]. rewrite String.eqb_refl, can_false_one. discriminate.
+Qed.
+
+Lemma p1_optional ms vt b p c c' o o' :
+  mut_check fone ms (SOptional vt b) p c (VOptional o) (VOptional o') = Some c' ->
+  (o = None /\ o' <> None) \/ (o <> None /\ o' = None).
+Proof.
+  cbn [mut_check]. destruct o as [x|], o' as [y|]; rewrite ?can_false_one; try discriminate; intros _.
+  - right. split; [discriminate|reflexivity].
+  - left. split; [reflexivity|discriminate].
+Qed.
+
 (** ** crossover: one parent is returned unchanged; with equal leaves nothing is chosen *)
 Lemma crossover_single cp pr s x child :
   s <> SConst -> cross_check cp pr s [x] child = true -> veqb x child = true.
